@@ -319,7 +319,7 @@ def r4_inactive_payload(ctx, f, rep):
         # the boolean produced by `?` on apply_update
         active = None
         for c in p.events[i0:]:
-            if c['kind'] == 'cond' and c.get('dty') == 'bool' and c['expr'][0] == 'fieldv' and c['expr'][3] == 'Continue':
+            if c['kind'] == 'cond' and c.get('dty') == 'bool' and q.ok_payload_of(p, c['expr']) is not None:
                 active = q.cond_truth(c)
                 break
         for j, e in enumerate(p.events[i0 + 1:], i0 + 1):
